@@ -38,8 +38,10 @@ def _ignore(d, names):
     return [n for n in names if n in ("__pycache__", "test") or n.endswith(".pyc")]
 
 
-def run_variant(prop: str, v: Dict[str, Any], repo: str) -> Dict[str, Any]:
-    res = {"id": v["id"], "kind": v.get("kind", "break"), "expect": v["expect_rule"], "status": "?"}
+def run_variant(prop: str, v: Dict[str, Any], repo: str, renamed: bool = False) -> Dict[str, Any]:
+    """renamed=True: after the edit, the locals of every function of the edited files are renamed (upsa/alpha.py);
+    the rule must still fire — a clause that is quiet on renamed code would be quiet on a renamed defect."""
+    res = {"id": v["id"] + ("+renamed" if renamed else ""), "kind": v.get("kind", "break"), "expect": v["expect_rule"], "status": "?"}
     scratch = tempfile.mkdtemp(prefix=f"upsa_{prop}_")
     try:
         shutil.copytree(os.path.join(repo, "unified_planning"), os.path.join(scratch, "unified_planning"), ignore=_ignore)
@@ -63,6 +65,20 @@ def run_variant(prop: str, v: Dict[str, Any], repo: str) -> Dict[str, Any]:
                 return res
             with open(path, "w") as fh:
                 fh.write(src)
+        if renamed:
+            from .alpha import alpha_rename
+
+            for root, _dirs, files in os.walk(os.path.join(scratch, "unified_planning")):
+                if "generated" in root:
+                    continue
+                for fn in files:
+                    if fn.endswith(".py"):
+                        path = os.path.join(root, fn)
+                        with open(path) as fh:
+                            src = fh.read()
+                        new_src, _k = alpha_rename(src)
+                        with open(path, "w") as fh:
+                            fh.write(new_src)
         env = dict(os.environ)
         env["UPSA_EVIDENCE_DIR"] = os.path.join(scratch, "evidence")
         cp = subprocess.run([sys.executable, "-B", "-m", "upsa.cli", prop, "--repo", scratch, "--tier", "quick", "--no-selftest", "--dump-keys"], cwd=VERIF, env=env, capture_output=True, text=True, timeout=300)
@@ -149,6 +165,7 @@ def run_selftest(prop: str, rep: Report, seed: int) -> None:
     with ThreadPoolExecutor(max_workers=min(16, os.cpu_count() or 4)) as ex:
         alpha = ex.submit(run_alpha, prop, index_mod.REPO)
         results = list(ex.map(lambda v: run_variant(prop, v, index_mod.REPO), variants))
+        results += list(ex.map(lambda v: run_variant(prop, v, index_mod.REPO, renamed=True), [v for v in variants if v.get("kind", "break") == "break"]))
         results.append(alpha.result())
     fired = [r for r in results if r["status"] == "fired"]
     silent = [r for r in results if r["status"] == "silent"]
